@@ -1886,3 +1886,75 @@ func rulePairwiseLookup(prog *Program, rep *Report, floor int, rels ...string) {
 	rep.Rules = append(rep.Rules, "M-pairwise: inside a loop over the keys of one object, another object with interface values is read at the same key only in the two-result form (or written): member-wise comparison, difference and matching distinguish a missing key from a null member")
 	runSynRule(prog, rep, "M-pairwise", rels, matchPairwiseLookup, fixturePairwise, 1, floor)
 }
+
+// ---------------------------------------------------------------- B-round
+
+// ruleRoundGuard: when a slice is not the last fragment the evaluators walk it
+// backwards from the last selected index, computed as
+// start + (end-start-1)/step*step. Go's division truncates toward zero, so for an
+// empty range (end <= start) and |step| >= 2 the result is start itself and one
+// element is selected. Every occurrence of the idiom must directly follow a test
+// that leaves when the range is empty.
+func ruleRoundGuard(prog *Program, rep *Report) {
+	rep.Rules = append(rep.Rules, "B-round: every assignment `end = start + (end-start-1)/step*step` (resp. `start - (start-end-1)/step*step`) in package jp directly follows `if end <= start { continue }` (resp. `start <= end`) or stands inside `if start < end`: an empty stepped slice in the middle of a path selects nothing, as it does when it is the last fragment")
+	pk := prog.Pkg("jp")
+	if pk == nil {
+		rep.Errorf("B-round: package jp not loaded")
+		return
+	}
+	n := 0
+	norm := func(e ast.Expr) string { return strings.ReplaceAll(types.ExprString(e), " ", "") }
+	for _, f := range pk.Syntax {
+		ast.Inspect(f, func(k ast.Node) bool {
+			var list []ast.Stmt
+			switch b := k.(type) {
+			case *ast.BlockStmt:
+				list = b.List
+			case *ast.CaseClause:
+				list = b.Body
+			default:
+				return true
+			}
+			for i, st := range list {
+				as, ok := st.(*ast.AssignStmt)
+				if !ok || len(as.Lhs) != 1 || len(as.Rhs) != 1 {
+					continue
+				}
+				r := norm(as.Rhs[0])
+				pos := r == "start+(end-start-1)/step*step"
+				neg := r == "start-(start-end-1)/step*step"
+				if norm(as.Lhs[0]) != "end" || (!pos && !neg) {
+					continue
+				}
+				n++
+				key := fmt.Sprintf("jp.%s:round@%d", enclosingFuncName(f, as.Pos()), n)
+				guarded := false
+				if i > 0 {
+					if ifs, ok := list[i-1].(*ast.IfStmt); ok && ifs.Else == nil && len(ifs.Body.List) > 0 {
+						c := norm(ifs.Cond)
+						okCond := (pos && (c == "end<=start" || c == "start>=end")) || (neg && (c == "start<=end" || c == "end>=start"))
+						leaves := false
+						switch l := ifs.Body.List[len(ifs.Body.List)-1].(type) {
+						case *ast.BranchStmt:
+							leaves = l.Tok == token.CONTINUE || l.Tok == token.BREAK
+						case *ast.ReturnStmt:
+							leaves = true
+						}
+						guarded = okCond && leaves
+					}
+				}
+				if guarded {
+					rep.Discharge("B-round", key, prog.Pos(as.Pos()), "follows the empty-range test")
+				} else {
+					rep.Violate(Finding{Rule: "B-round", Key: fmt.Sprintf("jp.%s:round:unguarded:%s", enclosingFuncName(f, as.Pos()), prog.Pos(as.Pos())), Pos: prog.Pos(as.Pos()),
+						Msg: "the last selected index of a stepped slice is computed with a truncating division without first leaving on an empty range: for end <= start and a step of 2 or more the element at start is selected ($[3:3:2].x returns an element, $[3:3:2] none)"})
+				}
+			}
+			return true
+		})
+	}
+	rep.Eval(n)
+	if n < 20 {
+		rep.Errorf("B-round examined %d rounding sites (floor 20): anchors did not resolve", n)
+	}
+}
